@@ -277,6 +277,7 @@ func runC10(c *Ctx) {
 	// "undecodable AUTH_SYS bodies are denied": a length that wraps round in the credential decoder makes an
 	// undecodable body decode (borrowed from C13, restricted to what ParseAuthSysCredential reaches)
 	runC10SquashKept(c, P)
+	runC10AuthSysWriter(c, P)
 	runShortIsError(c, P)
 	if ent0, err0 := p.entrySet(); err0 == nil {
 		runAuthCtxFresh(c, P, ent0.ConnLoop)
